@@ -61,7 +61,7 @@ def geommap_entry(kind, site, flag=1):
 
 
 def meta_items(kind, sites, ns, stream="ap", encoding="shank", fs=None, gains=None, vrange=None, maxint=None,
-               nsync=1, nsaved=None, tilde=True, extra=None, saved_subset=None):
+               nsync=1, nsaved=None, tilde=True, extra=None, saved_subset=None, imro_entries=None):
     """
     :return: list of (key, string value) in file order
     gains: list of (ap gain, lf gain) per site (NP1 / NPultra); NP2 entries carry no gain
@@ -121,7 +121,14 @@ def meta_items(kind, sites, ns, stream="ap", encoding="shank", fs=None, gains=No
     else:
         hdr = "(%d,%d)" % (prb_type, k)
     ent = []
-    for i in range(k):
+    # SpikeGLX always lists the whole probe in the IMRO table, also when only the first channels are saved: imro_entries > len(sites)
+    kim = k if imro_entries is None else imro_entries
+    if kind == "3A":
+        hdr = "(641251510,3,%d)" % kim
+    else:
+        hdr = "(%d,%d)" % (prb_type, kim)
+    gains = list(gains) + [(GAINS[(j + 3) % 8], GAINS[(j + 6) % 8]) for j in range(len(gains), kim)]
+    for i in range(kim):
         if fam == "NP2":
             ent.append("(%d 0 0 0 %d)" % (i, i))
         elif nfields == 5:
